@@ -554,6 +554,12 @@ impl Model {
     fn graph(&self) -> &Graph {
         &self.graph
     }
+
+    /// Verification hook: access the model's graph.
+    #[cfg(feature = "verif_hooks")]
+    pub fn verif_graph(&self) -> &Graph {
+        &self.graph
+    }
 }
 
 impl std::fmt::Debug for Model {
